@@ -1,5 +1,5 @@
 (* C11 -- a rejected request is never delivered later; parsing restarts clean after errors. *)
-From MH Require Import proofs.Impl_proofs.
+From MH Require Import proofs.Impl_proofs proofs.ServerYield_proofs.
 
 (* whenever try_read reports a parse error -- from ANY state, for ANY read result -- the parser
    fields (state, buffered bytes, pending request, body accumulator, remaining length, held
@@ -36,5 +36,42 @@ Example C11_ex_not_delivered :
   c_parsed (fst (reads 1024 c1 [RData (B"X-a: b" ++ CRLF ++ CRLF) []])) = [].
 Proof. vm_compute. reflexivity. Qed.
 
+(* at the server: a read whose bytes the parser rejects yields nothing -- the request answered with 400 is not
+   yielded then, and cannot be yielded later, because the connection's parser is that of a new connection
+   (waiting for a request line, empty window, nothing parsed, no descriptors held, same limit); the 400 is queued *)
+Theorem C11_server_rejected_read : forall BUF, (2 <= BUF)%nat -> N.of_nat BUF < U32_LIMIT ->
+  forall w toks fd kk w' ys x ph outs e,
+  Inv BUF w toks -> alookup fd (w_conns w) = Some x -> CInv BUF (sc_conn x) ph ->
+  k_tosrv (client_of w (sc_client x)) <> [] ->
+  handle_event BUF w (EvIn fd kk) = inl (w', ys) ->
+  let c := sc_conn x in
+  let t := k_tosrv (client_of w (sc_client x)) in
+  let d := firstn (read_amount kk (BUF - length (c_win c)) (length t)) t in
+  runT BUF (c_pmax c) ph (c_win c ++ d) [] = RErr outs e ->
+  ys = [] /\
+  exists y, alookup fd (w_conns w') = Some y /\ sc_gid y = sc_gid x /\ sc_client y = sc_client x /\
+    CInv BUF (sc_conn y) PLine /\ c_win (sc_conn y) = [] /\ c_parsed (sc_conn y) = [] /\ c_files (sc_conn y) = [] /\
+    c_pmax (sc_conn y) = c_pmax c /\
+    unsent (sc_conn y) = unsent c ++ flat_map serialize (conts_of outs ++ [bad_request_response e]).
+Proof. exact server_rejected_read. Qed.
+(* and one malformed request cannot make later well-formed requests fail: from that state, polling while ready
+   yields exactly the requests the whole-stream parser, started afresh, delivers on the input that follows *)
+Theorem C11_server_continues_as_new : forall BUF, (2 <= BUF)%nat -> N.of_nat BUF < U32_LIMIT ->
+  forall w toks acc fd x phF carryF outsF,
+  Inv BUF w toks -> Calm w -> alookup fd (w_conns w) = Some x ->
+  CInv BUF (sc_conn x) PLine -> c_win (sc_conn x) = [] -> c_parsed (sc_conn x) = [] -> c_files (sc_conn x) = [] ->
+  parse_stream BUF (c_pmax (sc_conn x)) (k_tosrv (client_of w (sc_client x))) = RMore phF carryF outsF ->
+  exists n, match drive BUF n w acc with
+            | DQuiet w2 ys =>
+                yields_of fd ys = yields_of fd acc ++ map (fun r => (fd, sc_gid x, r)) (reqs_of outsF []) /\
+                exists x2, alookup fd (w_conns w2) = Some x2 /\ CInv BUF (sc_conn x2) phF /\ c_win (sc_conn x2) = carryF /\
+                           sc_gid x2 = sc_gid x /\ k_tosrv (client_of w2 (sc_client x)) = []
+            | DOverflow => True
+            | DFuel => False
+            end.
+Proof. exact server_continues_as_new. Qed.
+
 Print Assumptions C11_reset.
 Print Assumptions C11_as_fresh.
+Print Assumptions C11_server_rejected_read.
+Print Assumptions C11_server_continues_as_new.
